@@ -5013,7 +5013,7 @@ class FlowIRConcrete(object):
 
         platform_variables = instance[FlowIR.FieldVariables][FlowIR.LabelDefault]
         instance[FlowIR.FieldComponents] = FlowIR.apply_replicate(
-            instance[FlowIR.FieldComponents], platform_variables, False, self.get_application_dependencies(),
+            instance[FlowIR.FieldComponents], platform_variables, False, self.get_application_dependencies(platform),
             top_level_folders=top_level_folders)
 
         return instance
